@@ -285,7 +285,7 @@ theorem CleanRun.trans {c : Cur} {rest : List Rune} {c1 : Cur} {rest1 : List Run
   exact ⟨p1 ++ p2, by simp [e1, e2], by rw [advs_append, ← f1, f2]⟩
 
 theorem advs_pos_prefix (c : Cur) (pre : List Rune) (h : pre ≠ []) :
-    ∃ b, b <+: pre ∧ b.length < pre.length ∧ (advs c pre).pos = advPos c.nxt b := by
+    ∃ b, b <+: pre ∧ b.length + 1 = pre.length ∧ (advs c pre).pos = advPos c.nxt b := by
   refine ⟨pre.dropLast, List.dropLast_prefix pre, ?_, ?_⟩
   · have := List.length_dropLast (xs := pre)
     have : pre.length ≠ 0 := fun e => h (List.eq_nil_of_length_eq_zero e)
@@ -298,21 +298,23 @@ theorem advs_pos_prefix (c : Cur) (pre : List Rune) (h : pre ≠ []) :
 /-- what one call of `nextToken` from `(c, rest)` does: it consumes a prefix `pre` (and then, at end of
 input only, possibly calls `next()` once more), the token spans `a … b` (relative to `c.nxt`), where
 `a ≤ b` are prefixes of `pre`, `b` a proper one unless the end of input was hit; an error sits at `b`. -/
-def StepSpec (c : Cur) (rest : List Rune) (s : LexStep) : Prop :=
+def StepSpec (cls : Cls) (c : Cur) (rest : List Rune) (s : LexStep) : Prop :=
   ∃ pre a b, rest = pre ++ s.rest ∧ a <+: b ∧ b <+: pre ∧
-    ((pre ≠ [] ∧ b.length < pre.length ∧ s.cur = advs c pre) ∨
-      (s.rest = [] ∧ s.cur = (advs c pre).advEOF)) ∧
+    (∀ r ∈ a, cls.isSpace r = true ∧ r ≠ cNL) ∧
+    ((pre ≠ [] ∧ b.length + 1 = pre.length ∧ s.cur = advs c pre) ∨
+      (s.rest = [] ∧ s.cur = (advs c pre).advEOF ∧ b = pre)) ∧
     (s.err = none → s.tok.start = advPos c.nxt a ∧ s.tok.end_ = advPos c.nxt b) ∧
     (∀ e, s.err = some e → e.pos = advPos c.nxt b)
 
-theorem stepSpec_of_run (c : Cur) (r : Rune) (rs : List Rune) (s : LexStep)
+theorem stepSpec_of_run (cls : Cls) (c : Cur) (r : Rune) (rs : List Rune) (s : LexStep)
     (hrun : CleanRun (c.adv r) rs s.cur s.rest ∨ EofRun (c.adv r) rs s.cur s.rest)
     (htok : s.err = none → s.tok.start = c.nxt ∧ s.tok.end_ = s.cur.pos)
-    (herr : ∀ e, s.err = some e → e.pos = s.cur.pos) : StepSpec c (r :: rs) s := by
+    (herr : ∀ e, s.err = some e → e.pos = s.cur.pos) : StepSpec cls c (r :: rs) s := by
   rcases hrun with ⟨pre', h1, h2⟩ | ⟨h1, h2⟩
   · obtain ⟨b, hb1, hb2, hb3⟩ := advs_pos_prefix c (r :: pre') (by simp)
     have hcur : s.cur = advs c (r :: pre') := by rw [h2]; rfl
-    refine ⟨r :: pre', [], b, by simp [h1], List.nil_prefix, hb1, Or.inl ⟨by simp, hb2, hcur⟩, ?_, ?_⟩
+    refine ⟨r :: pre', [], b, by simp [h1], List.nil_prefix, hb1, (fun x hx => by cases hx),
+      Or.inl ⟨by simp, hb2, hcur⟩, ?_, ?_⟩
     · intro he
       obtain ⟨t1, t2⟩ := htok he
       exact ⟨by simpa using t1, by rw [t2, hcur, hb3]⟩
@@ -320,22 +322,27 @@ theorem stepSpec_of_run (c : Cur) (r : Rune) (rs : List Rune) (s : LexStep)
       rw [herr e he, hcur, hb3]
   · have hcur : s.cur = (advs c (r :: rs)).advEOF := by rw [h2]; rfl
     refine ⟨r :: rs, [], r :: rs, by simp [h1], List.nil_prefix, List.prefix_refl _,
-      Or.inr ⟨h1, hcur⟩, ?_, ?_⟩
+      (fun x hx => by cases hx), Or.inr ⟨h1, hcur, rfl⟩, ?_, ?_⟩
     · intro he
       obtain ⟨t1, t2⟩ := htok he
       exact ⟨by simpa using t1, by rw [t2, hcur, advEOF_pos, advs_nxt]⟩
     · intro e he
       rw [herr e he, hcur, advEOF_pos, advs_nxt]
 
-theorem StepSpec.cons {c : Cur} {r : Rune} {rs : List Rune} {s : LexStep}
-    (h : StepSpec (c.adv r) rs s) : StepSpec c (r :: rs) s := by
-  obtain ⟨pre, a, b, h1, h2, h3, h4, h5, h6⟩ := h
-  refine ⟨r :: pre, r :: a, r :: b, by simp [h1], ?_, ?_, ?_, ?_, ?_⟩
+theorem StepSpec.cons {cls : Cls} {c : Cur} {r : Rune} {rs : List Rune} {s : LexStep}
+    (hr : cls.isSpace r = true ∧ r ≠ cNL) (h : StepSpec cls (c.adv r) rs s) :
+    StepSpec cls c (r :: rs) s := by
+  obtain ⟨pre, a, b, h1, h2, h3, ha, h4, h5, h6⟩ := h
+  refine ⟨r :: pre, r :: a, r :: b, by simp [h1], ?_, ?_, ?_, ?_, ?_, ?_⟩
   · exact (List.prefix_cons_inj r).mpr h2
   · exact (List.prefix_cons_inj r).mpr h3
-  · rcases h4 with ⟨g1, g2, g3⟩ | ⟨g1, g2⟩
+  · intro x hx
+    rcases List.mem_cons.mp hx with rfl | hx
+    · exact hr
+    · exact ha x hx
+  · rcases h4 with ⟨g1, g2, g3⟩ | ⟨g1, g2, g3⟩
     · exact Or.inl ⟨by simp, by simpa using g2, by simp [g3]⟩
-    · exact Or.inr ⟨g1, by simp [g2]⟩
+    · exact Or.inr ⟨g1, by simp [g2], by rw [g3]⟩
   · intro he
     obtain ⟨t1, t2⟩ := h5 he
     rw [adv_nxt] at t1 t2
@@ -355,10 +362,10 @@ theorem litStep_fields (ty : TokenType) (p : Pos) (lr : LitRes) :
   | none => simp [mkTok]
   | some e => simp
 
-theorem stepSpec_litStep (c : Cur) (r : Rune) (rs : List Rune) (ty : TokenType) (lr : LitRes)
+theorem stepSpec_litStep (cls : Cls) (c : Cur) (r : Rune) (rs : List Rune) (ty : TokenType) (lr : LitRes)
     (hrun : CleanRun (c.adv r) rs lr.cur lr.rest ∨ EofRun (c.adv r) rs lr.cur lr.rest)
     (herr : ∀ e, lr.err = some e → e.pos = lr.cur.pos) :
-    StepSpec c (r :: rs) (litStep ty (c.adv r).pos lr) := by
+    StepSpec cls c (r :: rs) (litStep ty (c.adv r).pos lr) := by
   obtain ⟨f1, f2, f3, f4⟩ := litStep_fields ty (c.adv r).pos lr
   apply stepSpec_of_run
   · rw [f1, f2]; exact hrun
@@ -399,62 +406,63 @@ theorem lexDescriptionLine_run (cls : Cls) (c : Cur) (rest : List Rune) :
   exact ⟨h1.trans (lexLineLoop_run _ _ _).1, (lexLineLoop_run _ _ _).2⟩
 
 theorem nextToken_spec (cls : Cls) (c : Cur) (rest : List Rune) :
-    StepSpec c rest (nextToken cls c rest) := by
+    StepSpec cls c rest (nextToken cls c rest) := by
   induction rest generalizing c with
   | nil =>
     unfold nextToken
-    exact ⟨[], [], [], rfl, List.prefix_refl _, List.prefix_refl _, Or.inr ⟨rfl, rfl⟩,
-      fun _ => ⟨rfl, rfl⟩, fun e he => by cases he⟩
+    exact ⟨[], [], [], rfl, List.prefix_refl _, List.prefix_refl _, (fun x hx => by cases hx),
+      Or.inr ⟨rfl, rfl, rfl⟩, fun _ => ⟨rfl, rfl⟩, fun e he => by cases he⟩
   | cons r rs ih =>
     unfold nextToken
     simp only []
     split
     · -- operator
-      exact stepSpec_of_run c r rs _ (Or.inl (CleanRun.refl _ _)) (fun _ => ⟨rfl, rfl⟩)
+      exact stepSpec_of_run cls c r rs _ (Or.inl (CleanRun.refl _ _)) (fun _ => ⟨rfl, rfl⟩)
         (fun e he => by cases he)
     · split
       · split
-        · exact stepSpec_litStep c r rs _ _ (lexLineComment_run _ _).1
+        · exact stepSpec_litStep cls c r rs _ _ (lexLineComment_run _ _).1
             (fun e he => by rw [(lexLineComment_run _ _).2] at he; cases he)
         · split
           · rename_i hstar
             cases rs with
             | nil => simp at hstar
             | cons r2 rs2 =>
-              exact stepSpec_litStep c r (r2 :: rs2) _ _ (lexBlockComment_run _ _ _).1
+              exact stepSpec_litStep cls c r (r2 :: rs2) _ _ (lexBlockComment_run _ _ _).1
                 (fun e he => by rw [(lexBlockComment_run _ _ _).2] at he; cases he)
-          · exact stepSpec_litStep c r rs _ _ (lexRegexLoop_run _ _ _).1 (lexRegexLoop_run _ _ _).2
+          · exact stepSpec_litStep cls c r rs _ _ (lexRegexLoop_run _ _ _).1 (lexRegexLoop_run _ _ _).2
       · split
-        · exact stepSpec_litStep c r rs _ _ (lexStringLoop_run _ _ _).1 (lexStringLoop_run _ _ _).2
+        · exact stepSpec_litStep cls c r rs _ _ (lexStringLoop_run _ _ _).1 (lexStringLoop_run _ _ _).2
         · split
-          · exact stepSpec_litStep c r rs _ _ (Or.inl (lexDescriptionLine_run _ _ _).1)
+          · exact stepSpec_litStep cls c r rs _ _ (Or.inl (lexDescriptionLine_run _ _ _).1)
               (fun e he => by rw [(lexDescriptionLine_run _ _ _).2] at he; cases he)
           · split
-            · exact stepSpec_of_run c r rs _ (Or.inl (CleanRun.refl _ _)) (fun _ => ⟨rfl, rfl⟩)
+            · exact stepSpec_of_run cls c r rs _ (Or.inl (CleanRun.refl _ _)) (fun _ => ⟨rfl, rfl⟩)
                 (fun e he => by cases he)
             · split
-              · exact (ih _).cons
+              · rename_i hnl hsp
+                exact StepSpec.cons ⟨hsp, hnl⟩ (ih _)
               · split
                 · -- number
                   have hn := lexNumberLoop_run cls (c.adv r) .int [r] false rs
                   split
                   · rename_i e he
-                    exact stepSpec_of_run c r rs _ (Or.inl hn.1) (fun h => by cases h)
+                    exact stepSpec_of_run cls c r rs _ (Or.inl hn.1) (fun h => by cases h)
                       (fun e' he' => by cases he'; exact hn.2 e he)
-                  · exact stepSpec_of_run c r rs _ (Or.inl hn.1) (fun _ => ⟨rfl, rfl⟩)
+                  · exact stepSpec_of_run cls c r rs _ (Or.inl hn.1) (fun _ => ⟨rfl, rfl⟩)
                       (fun e he => by cases he)
                 · split
                   · -- identifier
                     have hi := lexIdentLoop_run cls (c.adv r) [r] rs
                     split
-                    · exact stepSpec_of_run c r rs _ (Or.inl hi.1) (fun _ => ⟨rfl, rfl⟩)
+                    · exact stepSpec_of_run cls c r rs _ (Or.inl hi.1) (fun _ => ⟨rfl, rfl⟩)
                         (fun e he => by cases he)
                     · split
-                      · exact stepSpec_of_run c r rs _ (Or.inl hi.1) (fun _ => ⟨rfl, rfl⟩)
+                      · exact stepSpec_of_run cls c r rs _ (Or.inl hi.1) (fun _ => ⟨rfl, rfl⟩)
                           (fun e he => by cases he)
-                      · exact stepSpec_of_run c r rs _ (Or.inl hi.1) (fun _ => ⟨rfl, rfl⟩)
+                      · exact stepSpec_of_run cls c r rs _ (Or.inl hi.1) (fun _ => ⟨rfl, rfl⟩)
                           (fun e he => by cases he)
-                  · exact stepSpec_of_run c r rs _ (Or.inl (CleanRun.refl _ _)) (fun h => by cases h)
+                  · exact stepSpec_of_run cls c r rs _ (Or.inl (CleanRun.refl _ _)) (fun h => by cases h)
                       (fun e he => by cases he; rfl)
 
 
@@ -510,7 +518,7 @@ theorem allTokensLoop_spec (cls : Cls) (ff : Bool) (src : List Rune) :
         exact ⟨[], by simp, fun e h => by cases h⟩
     | cons r rs =>
       obtain ⟨hsrc, hnxt⟩ := hclean (by simp)
-      obtain ⟨pre, a, b, e1, ab, bpre, hcur, htok, herr⟩ := nextToken_spec cls c (r :: rs)
+      obtain ⟨pre, a, b, e1, ab, bpre, _, hcur, htok, herr⟩ := nextToken_spec cls c (r :: rs)
       generalize nextToken cls c (r :: rs) = s at *
       -- facts about the state after the step
       have hlen : s.rest.length < fuel := by
@@ -655,7 +663,7 @@ theorem TokChain.props {src lo : List Rune} {ts : List Token} (h : TokChain src 
 /-- every `NextToken` call on non-empty input consumes at least one rune -/
 theorem nextToken_progress (cls : Cls) (c : Cur) (r : Rune) (rs : List Rune) :
     (nextToken cls c (r :: rs)).rest.length < (r :: rs).length := by
-  obtain ⟨pre, a, b, e1, _, _, hcur, _, _⟩ := nextToken_spec cls c (r :: rs)
+  obtain ⟨pre, a, b, e1, _, _, _, hcur, _, _⟩ := nextToken_spec cls c (r :: rs)
   generalize nextToken cls c (r :: rs) = s at *
   rcases hcur with ⟨g1, _, _⟩ | ⟨g1, _⟩
   · have : (r :: rs).length = pre.length + s.rest.length := by rw [e1]; simp
